@@ -6,3 +6,12 @@ mod p2a_common;
 #[cfg(any(verif_all, verif_c20))]
 #[path = "/verif/harness/ntp-proto/c20.rs"]
 mod c20;
+#[cfg(any(verif_all, verif_c15))]
+#[path = "/verif/harness/ntp-proto/c15.rs"]
+mod c15;
+#[cfg(any(verif_all, verif_c21))]
+#[path = "/verif/harness/ntp-proto/c21.rs"]
+mod c21;
+#[cfg(any(verif_all, verif_c22))]
+#[path = "/verif/harness/ntp-proto/c22.rs"]
+mod c22;
